@@ -34,7 +34,6 @@ MEMOISED = {
     "typelib.graph.static_order": CONTAINER_RO,
     "typelib.marshals.api.marshaller": ROUTINE,
     "typelib.unmarshals.api.unmarshaller": ROUTINE,
-    "typelib.serdes._duration_isoformat": IMMUTABLE,
     "typelib.serdes.dateparse": IMMUTABLE,
     "typelib.serdes.get_items_iter": CALLABLE,
     "typelib.serdes._strload": COPIED,
